@@ -88,7 +88,21 @@ def opClEncode (c : Json) : R Json := do
   let x ← clParseInst (← obj c "x")
   return Json.mkObj [("file", Json.arr (clFileJson (fileOf x)).toArray)]
 
+/-- op `cl.filesafe`: {spec, x, floats} ↦ {"filesafe": b} — the theorem's exclusion predicate on (spec, x); `unmodelled` when
+    x is outside the theorem's hypotheses (`conformsB`, `wfB`) -/
+def opClFilesafe (c : Json) : R Json := do
+  let spec ← clParseSpec (← obj c "spec")
+  let x ← clParseInst (← obj c "x")
+  let fenv ← eParseFEnv c
+  if !(conformsB spec x && wfB spec) then
+    return Json.mkObj [("o", "unmodelled"), ("why", "x does not conform to the class tree / is not in the model")]
+  -- where the model itself cannot follow the loop (e.g. a non-ASCII str in a Union with an int member: `parseInt` is not
+  -- modelled there) `unionSafe` is conservatively false: not comparable
+  match ConfigLoop.loop fenv .parse (chars (← str c "dest")) spec x with
+  | .unmodelled w => return Json.mkObj [("o", "unmodelled"), ("why", w)]
+  | _ => return Json.mkObj [("filesafe", fileSafe fenv spec .empty x)]
+
 def configLoopOps : List (String × (Json → R Json)) :=
-  [("cl.loop", opClLoop), ("cl.parse_file", opClParseFile), ("cl.encode", opClEncode)]
+  [("cl.loop", opClLoop), ("cl.parse_file", opClParseFile), ("cl.encode", opClEncode), ("cl.filesafe", opClFilesafe)]
 
 end SpVerif.Drive
